@@ -7,6 +7,7 @@ package spynode
 import (
 	"fmt"
 	"testing"
+	"time"
 
 	"github.com/tokenized/spynode/internal/verifkit"
 
@@ -15,9 +16,13 @@ import (
 
 // C01Event is one planned action.
 type C01Event struct {
-	Op   string `json:"op"`             // deliver ping blockstep best dup reconnect restart
+	Op   string `json:"op"`             // deliver ping blockstep blockwin best dup reconnect restart
 	I    int    `json:"i,omitempty"`    // deliver: index within the reorder window (blocks only)
 	Name string `json:"name,omitempty"` // best: new best tip
+	// blockwin: the block thread processes its next block in its own goroutine and is held at its
+	// K-th storage operation while the next N peer messages are handled; then it is released
+	K int `json:"k,omitempty"`
+	N int `json:"n,omitempty"`
 }
 
 // C01Scenario is a complete C01 case.
@@ -58,6 +63,9 @@ func c01Run(sc *C01Scenario) (v *nodeViolation, flags map[string]bool) {
 		}
 	}
 	sn := newStepNode(cfg, verifkit.NewMemStore(true), peer, newStubFetcher())
+	gate := &holdGate{Role: "block"}
+	sn.store.SetGate(gate.hook)
+	sn.blockCtx = roleCtx(sn.ctx, "block")
 	defer func() {
 		if r := recover(); r != nil {
 			v = &nodeViolation{"C01/panic", fmt.Sprintf("panic at step %d: %v\n%s", sn.step, r, shortStack())}
@@ -112,6 +120,39 @@ func c01Run(sc *C01Scenario) (v *nodeViolation, flags map[string]bool) {
 			sn.ping()
 		case "blockstep":
 			sn.blockStep()
+		case "blockwin":
+			gate.arm(ev.K)
+			done := make(chan struct{})
+			go func() {
+				defer close(done)
+				defer func() {
+					if r := recover(); r != nil {
+						sn.blockThreadDead = fmt.Sprintf("panic in the block thread: %v", r)
+					}
+				}()
+				sn.blockStep()
+			}()
+			if gate.waitHeld(done, 300*time.Millisecond) {
+				flags["block-thread-held"] = true
+				msgs := make(chan struct{})
+				go func() {
+					defer close(msgs)
+					for k := 0; k < ev.N; k++ {
+						if !sn.deliverNext(0) {
+							break
+						}
+					}
+				}()
+				select {
+				case <-msgs:
+				case <-time.After(250 * time.Millisecond):
+					flags["message-handling-waits-for-block-thread"] = true
+				}
+				gate.release()
+				<-msgs
+			}
+			<-done
+			sn.drain()
 		case "best":
 			nb := tree.ByName[ev.Name]
 			if nb == nil || nb.Height <= peer.best.Height {
@@ -207,7 +248,7 @@ func c01Nontrivial(f map[string]bool) bool {
 	return f["reorg"] || f["restart"] || f["reconnect"] || f["timeout-recovery"] || f["reordered-blocks"]
 }
 
-const c01Rule = "step-mode plans: generated block tree, start block (early/mid/late/absent), peer best-chain history (extend, reorganise to a longer branch incl. forks among pending blocks, below the start block, before and after in-sync), blocks the peer does not serve until the node's request time-out reconnects, duplicate header announcements, block reordering within a window, reconnects and clean restarts, and a generated interleaving of message delivery / check / block-processing steps; then fair completion; oracle: node chain == peer best chain at every height, in-sync notification only when all announced best-chain blocks are held; non-trivial = history contains a reorg, restart, reconnect, time-out-driven recovery or reordered delivery; distinct by scenario hash"
+const c01Rule = "step-mode plans: generated block tree, start block (early/mid/late/absent), peer best-chain history (extend, reorganise to a longer branch incl. forks among pending blocks, below the start block, before and after in-sync), blocks the peer does not serve until the node's request time-out reconnects, duplicate header announcements, block reordering within a window, reconnects and clean restarts, and a generated interleaving of message delivery / check / block-processing steps, a sixth of the block steps running in their own goroutine and held at a drawn storage operation while peer messages are handled; then fair completion; oracle: node chain == peer best chain at every height, in-sync notification only when all announced best-chain blocks are held; non-trivial = history contains a reorg, restart, reconnect, time-out-driven recovery or reordered delivery; distinct by scenario hash"
 
 func genC01(t *rapid.T) *C01Scenario {
 	// 1 case in 25 straddles the 1000-header block file boundary of the block repository
@@ -260,7 +301,11 @@ func genC01(t *rapid.T) *C01Scenario {
 		case "deliver":
 			sc.Events = append(sc.Events, C01Event{Op: "deliver", I: rapid.SampledFrom([]int{0, 0, 0, 1, 2, 3}).Draw(t, "i")})
 		case "blockstep":
-			sc.Events = append(sc.Events, C01Event{Op: "blockstep"})
+			if rapid.IntRange(0, 5).Draw(t, "win") == 0 {
+				sc.Events = append(sc.Events, C01Event{Op: "blockwin", K: rapid.IntRange(0, 4).Draw(t, "wk"), N: rapid.IntRange(1, 4).Draw(t, "wn")})
+			} else {
+				sc.Events = append(sc.Events, C01Event{Op: "blockstep"})
+			}
 		case "ping":
 			sc.Events = append(sc.Events, C01Event{Op: "ping"})
 		case "dup":
